@@ -379,7 +379,135 @@ Qed.
 Lemma rz_close_open : forall d x, wm_fx_fsr x = wm_fsr_open -> wm_fsr_close summ1 summN d x = x.
 Proof.
   intros d x H. unfold wm_fsr_close. cbv zeta. rewrite H. cbn [wm_f_alloc wm_fsr_open].
-  unfold wm_fsr_close_levels. cbn [fold_left]. unfold wm_fsr_summary_close. rewrite H. reflexivity.
+  generalize wm_fsr_close_levels. intro l. induction l as [| lv l IH]; cbn [fold_left]; [reflexivity |].
+  replace (wm_fsr_summary_close summN d x lv) with x; [exact IH |].
+  unfold wm_fsr_summary_close. rewrite H. unfold wm_f_get_level. cbn [wm_f_levels wm_fsr_open]. rewrite nth_repeat. reflexivity.
+Qed.
+
+Definition rz_put (id : N) (w' : rp_w) (t' : wm_track) (f' : option wm_fsr) : rp_w :=
+  let g' := rp_get_sig (rp_c w') id in
+  rp_w_set_c w' (rp_put_sig (rp_c w') id
+    (rp_sg_set_fsr (rp_sg_set_tk g' (wm_upd (N.to_nat JLS_TRACK_TYPE_FSR) (true, t') (rp_sg_tk g'))) f')).
+Lemma rz_put_io : forall id w' t' f', rp_w_io (rz_put id w' t' f') = rp_w_io w'.
+Proof. reflexivity. Qed.
+Lemma rz_put_ok : forall id w' t' st', ry_acc f pos w' st' -> rz_fsigs st' (rp_c w') -> rz_ftrk st' t' ->
+  ry_acc f pos (rz_put id w' t' None) st' /\ rz_fsigs st' (rp_c (rz_put id w' t' None)).
+Proof.
+  intros id w' t' st' H S Ht. split; [apply ry_acc_set_c; [exact H | reflexivity] |].
+  unfold rz_put. cbv zeta. cbn [rp_c rp_w_set_c]. unfold rz_fsigs, rp_put_sig. cbn [rp_sigs rp_rd_set_sigs].
+  apply wmw_Forall_upd; [exact S |].
+  pose proof (rz_fsigs_get st' _ id S) as (G1 & G2).
+  split; [| reflexivity].
+  unfold rp_sg_track in *. cbn [rp_sg_set_fsr rp_sg_set_tk rp_sg_tk].
+  destruct (ry_nth_upd_cases _ (N.to_nat JLS_TRACK_TYPE_FSR) (N.to_nat JLS_TRACK_TYPE_FSR) (true, t') (false, wm_track0 0) (rp_sg_tk (rp_get_sig (rp_c w') id)))
+    as [[E1 _] | E1]; rewrite E1; [exact Ht | exact G1].
+Qed.
+
+Lemma rz_sigs_eq : forall st c c', rp_sigs c' = rp_sigs c -> rz_fsigs st c -> rz_fsigs st c'.
+Proof. intros st c c' E H. unfold rz_fsigs. rewrite E. exact H. Qed.
+
+(* jls_core_repair_fsr *)
+Lemma rz_repair_fsr : forall w id,
+  let res := rp_repair_fsr summ1 summN w id in
+  (rp_flt (rp_w_io (fst res)) = 0 -> rp_flt (rp_w_io w) = 0) /\
+  forall st, ry_acc f pos w st -> rz_fsigs st (rp_c w) -> rp_flt (rp_w_io (fst res)) = 0 ->
+    (snd res = JLS_ERROR_PARAMETER_INVALID \/ snd res = JLS_ERROR_NOT_SUPPORTED) \/
+    exists st', ry_acc f pos (fst res) st' /\ rz_fsigs st' (rp_c (fst res)) /\ rx_mono st st'.
+Proof.
+  intros w id. cbv zeta. unfold rp_repair_fsr.
+  destruct (negb (rp_signal_validate_typed (rp_c w) id JLS_SIGNAL_TYPE_FSR =? 0)).
+  { cbn [fst snd]. split; [auto |]. intros st H S _. right. exists st. split; [exact H |]. split; [exact S | apply rx_mono_refl]. }
+  set (g := rp_get_sig (rp_c w) id). set (d := rp_sg_d g).
+  destruct (rp_sg_track g JLS_TRACK_TYPE_FSR) as [has t] eqn:Et.
+  match goal with |- context [rp_first_level rp_top_level (rp_w_io ?a) t false] => set (w0 := a) end.
+  assert (R0 : ry_rd (rp_w_io w) (rp_w_io w0)).
+  { unfold w0. match goal with |- context [if ?b then _ else _] => destruct b end; [apply ry_rd_io_fault | apply ry_rd_refl]. }
+  assert (S0 : rp_sigs (rp_c w0) = rp_sigs (rp_c w)).
+  { unfold w0. match goal with |- context [if ?b then _ else _] => destruct b end; reflexivity. }
+  assert (ACC0 : forall st, ry_acc f pos w st -> ry_acc f pos w0 st).
+  { intros st H. unfold w0. match goal with |- context [if ?b then _ else _] => destruct b end; [| exact H].
+    apply (ry_acc_rd f pos _ _ _ H (ry_rd_io_fault _ _)). }
+  pose proof (ry_rd_first_level rp_top_level (rp_w_io w0) t false) as R1.
+  pose proof (fun st => rz_first_level_tk rp_top_level (rp_w_io w0) t st) as TK1.
+  pose proof (rz_first_level_track0 rp_top_level (rp_w_io w0) false) as Z1.
+  destruct (rp_first_level rp_top_level (rp_w_io w0) t false) as [[s1 t1] level] eqn:E1. cbn [fst snd] in R1, TK1.
+  set (w1 := rp_w_set_io w0 s1).
+  assert (G1 : ry_rd (rp_w_io w) s1) by exact (ry_rd_trans _ _ _ R0 R1).
+  set (f0 := if 0 <? level then wm_fsr_level_alloc wm_fsr_open level else wm_fsr_open).
+  assert (A0 : wm_f_alloc f0 = false) by (unfold f0; destruct (0 <? level); [rewrite rz_alloc_level_alloc |]; reflexivity).
+  pose proof (rz_fsr_levels (rp_chain_fuel s1 + 16) d w1 t1 f0 level (wm_get_off (wm_tk_offsets t1) level) false) as L2. cbv zeta in L2.
+  destruct (rp_fsr_levels summN (rp_chain_fuel s1 + 16) d w1 t1 f0 level (wm_get_off (wm_tk_offsets t1) level) false)
+    as [[[[[w2 t2] f2] offset2] skip2] rc2] eqn:E2.
+  cbn [fst snd] in L2. destruct L2 as (W2 & A2 & RC2 & S2).
+  fold (rz_put id w2 t2 (Some f2)).
+  destruct (negb (rc2 =? 0)) eqn:Erc2.
+  { cbn [fst snd]. rewrite rz_put_io. split; [intros X; apply R0; apply (proj2 (ry_wstep_io w0 s1 R1)); apply (proj2 W2); exact X |].
+    intros st _ _ _. left. apply negb_true_iff in Erc2. apply N.eqb_neq in Erc2. destruct RC2 as [X | X]; [contradiction | exact X]. }
+  pose proof (rz_fsr_data (rp_chain_fuel s1) d w2 t2 f2 offset2 skip2) as L3. cbv zeta in L3.
+  destruct (rp_fsr_data summ1 summN (rp_chain_fuel s1) d w2 t2 f2 offset2 skip2) as [[w3 t3] f3] eqn:E3.
+  cbn [fst snd] in L3. destruct L3 as (W3 & A3 & S3).
+  set (w4 := rp_w_set_io w3 (rp_seek_end (rp_w_io w3))).
+  unfold rp_unfx. set (x5 := wm_fsr_close summ1 summN d (rp_fx w4 t3 f3)).
+  fold (rz_put id (rp_commit w4 (wm_fx_base x5)) (wm_fx_tk x5) None). cbn [fst snd]. rewrite rz_put_io.
+  assert (FL : rp_flt (rp_w_io (rp_commit w4 (wm_fx_base x5))) = 0 -> rp_flt (rp_w_io w3) = 0 /\ rp_flt (rp_w_io w2) = 0 /\ rp_flt (rp_w_io w) = 0).
+  { intros X. destruct (ry_commit_flt _ _ X) as (X4 & _). change (rp_flt (rp_w_io w4)) with (rp_flt (rp_w_io w3)) in X4.
+    split; [exact X4 |]. pose proof (proj2 W3 X4) as X2. split; [exact X2 |].
+    apply R0. apply (proj2 (ry_wstep_io w0 s1 R1)). apply (proj2 W2). exact X2. }
+  split; [intros X; apply FL; exact X |].
+  intros st H S Hflt. right. destruct (FL Hflt) as (Hf3 & Hf2 & _).
+  assert (H1 : ry_acc f pos w1 st) by (unfold w1; apply (ry_acc_rd f pos _ _ _ (ACC0 st H) R1)).
+  assert (S4eq : rp_sigs (rp_c (rp_commit w4 (wm_fx_base x5))) = rp_sigs (rp_c w)).
+  { rewrite ry_commit_sigs. change (rp_sigs (rp_c w4)) with (rp_sigs (rp_c w3)). rewrite (proj1 W3), (proj1 W2). exact S0. }
+  pose proof (rz_fsigs_get st _ id S) as (Gt & _). fold g in Gt. rewrite Et in Gt. cbn [snd] in Gt.
+  destruct Gt as [Gt | Gt].
+  - (* no FSR track head: nothing is walked, nothing is written *)
+    subst t. rewrite Z1 in E1. inversion E1; subst s1 t1 level. clear E1.
+    assert (Ef0 : f0 = wm_fsr_open) by reflexivity.
+    assert (E2' : (w2, t2, f2, offset2, skip2, rc2) = (w1, wm_track0 0, f0, 0, false, 0)).
+    { rewrite <- E2. unfold rp_chain_fuel. cbn [Nat.add rp_fsr_levels N.eqb]. reflexivity. }
+    inversion E2'; subst w2 t2 f2 offset2 skip2 rc2. clear E2'.
+    assert (E3' : (w3, t3, f3) = (w1, wm_track0 0, f0)).
+    { rewrite <- E3. unfold rp_chain_fuel. cbn [rp_fsr_data N.eqb]. reflexivity. }
+    inversion E3'; subst w3 t3 f3. clear E3'.
+    assert (Ex5 : x5 = rp_fx w4 (wm_track0 0) f0) by (unfold x5; apply rz_close_open; exact Ef0).
+    rewrite Ex5 in *. cbn [wm_fx_base wm_fx_tk rp_fx] in *.
+    assert (H4 : ry_acc f pos w4 st) by (unfold w4; apply (ry_acc_rd f pos _ _ _ H1 (ry_rd_seek_end _))).
+    assert (H5 : ry_acc f pos (rp_commit w4 (rp_wm_base w4 (wm_ck_offset (wm_tk_head (wm_track0 0))))) st).
+    { pose proof H4 as (B1 & B2 & B3 & B4 & B5 & B6 & B7 & B8 & B9).
+      apply (ry_commit f pos w4 _ st st H4); [now left | exact B2 | exact B6 | reflexivity | exact B7 | exact B8]. }
+    destruct (rz_put_ok id _ (wm_track0 0) st H5 (rz_sigs_eq st _ _ S4eq S) (or_introl eq_refl)) as (P1 & P2).
+    exists st. split; [exact P1 |]. split; [exact P2 | apply rx_mono_refl].
+  - pose proof (TK1 st Gt) as T1.
+    destruct (S2 st H1 T1 Hf2) as (st2 & H2 & T2 & M2).
+    destruct (S3 st2 H2 T2 Hf3) as (st3 & H3 & T3 & M3).
+    assert (H4 : ry_acc f pos w4 st3) by (unfold w4; apply (ry_acc_rd f pos _ _ _ H3 (ry_rd_seek_end _))).
+    assert (A3' : wm_f_alloc f3 = false) by (apply A3; apply A2; exact A0).
+    destruct (rz_unfx w4 st3 t3 f3 x5 H4 (rz_at_end_seek_end _) T3 (rx_fsr_close f pos summ1 summN st3 d (rp_fx w4 t3 f3) A3') Hflt)
+      as (st5 & H5 & T5 & M5).
+    assert (M : rx_mono st st5) by (eapply rx_mono_trans; [exact M2 |]; eapply rx_mono_trans; eauto).
+    destruct (rz_put_ok id _ (wm_fx_tk x5) st5 H5 (rz_sigs_eq st5 _ _ S4eq (rz_fsigs_mono _ _ _ M S)) (or_intror T5)) as (P1 & P2).
+    exists st5. split; [exact P1 |]. split; [exact P2 | exact M].
+Qed.
+
+Lemma rz_repair_fsr_all : forall ids w,
+  let res := rp_repair_fsr_all summ1 summN ids w in
+  (rp_flt (rp_w_io (fst res)) = 0 -> rp_flt (rp_w_io w) = 0) /\
+  forall st, ry_acc f pos w st -> rz_fsigs st (rp_c w) -> rp_flt (rp_w_io (fst res)) = 0 ->
+    (snd res = JLS_ERROR_PARAMETER_INVALID \/ snd res = JLS_ERROR_NOT_SUPPORTED) \/
+    exists st', ry_acc f pos (fst res) st' /\ rz_fsigs st' (rp_c (fst res)) /\ rx_mono st st'.
+Proof.
+  induction ids as [| id rest IH]; intros w; cbv zeta; cbn [rp_repair_fsr_all].
+  { cbn [fst snd]. split; [auto |]. intros st H S _. right. exists st. split; [exact H |]. split; [exact S | apply rx_mono_refl]. }
+  match goal with |- context [if ?b then _ else _] => destruct b end; [| apply IH].
+  pose proof (rz_repair_fsr w id) as R. cbv zeta in R. destruct (rp_repair_fsr summ1 summN w id) as [w1 rc]. cbn [fst snd] in R.
+  destruct R as (F1 & S1).
+  destruct (rc =? 0) eqn:Erc.
+  - pose proof (IH w1) as R2. cbv zeta in R2. destruct R2 as (F2 & S2). split; [auto |].
+    intros st H S Hflt. destruct (S1 st H S (F2 Hflt)) as [[X | X] | (st1 & H1 & G1 & M1)];
+      [apply N.eqb_eq in Erc; rewrite Erc in X; discriminate X | apply N.eqb_eq in Erc; rewrite Erc in X; discriminate X |].
+    destruct (S2 st1 H1 G1 Hflt) as [X | (st2 & H2 & G2 & M2)]; [left; exact X | right].
+    exists st2. split; [exact H2 |]. split; [exact G2 | eapply rx_mono_trans; eauto].
+  - cbn [fst snd]. split; [exact F1 |]. exact S1.
 Qed.
 
 End RZ.
